@@ -189,19 +189,31 @@ def validate(work, trace_spec, trace_files, nproc, timeout, depth=0):
     if n == 0:
         return [], 0, 0
     nshards = max(1, min(nproc, n // 40 + 1))
-    # histories (begin ... end) must stay together: shard on "begin" boundaries when present
+    # histories (a `begin` event followed by stateful events) must stay together, in order, in one shard; every other
+    # event stands alone.  (Trace files of different origins are concatenated - e.g. model replays, which have no
+    # histories, before a recording that has - so this is decided per event, never from the head of the list.)
+    re_op = re.compile(r'"op":\s*"([^"]+)"')
     groups, cur = [], []
-    stateful = any('"op":"begin"' in e for e in events[:50])
-    if stateful:
-        for e in events:
-            if '"op":"begin"' in e and cur:
+    stateful = False
+    for e in events:
+        m = re_op.search(e)
+        op = m.group(1) if m else ""
+        if op == "begin":
+            stateful = True
+            if cur:
+                groups.append(cur)
+            cur = [e]
+        elif cur and (op in STATEFUL_OPS or '"dom":"lifecycle"' not in cur[0]):
+            # inside a history: stateful events always; state-free ones too in the data domain (they are emitted in the
+            # middle of histories there), while in the graph domain a state-free event ends the life-cycle history
+            cur.append(e)
+        else:
+            if cur:
                 groups.append(cur)
                 cur = []
-            cur.append(e)
-        if cur:
-            groups.append(cur)
-    else:
-        groups = [[e] for e in events]
+            groups.append([e])
+    if cur:
+        groups.append(cur)
     shards = [[] for _ in range(nshards)]
     load = [0] * nshards
     for g in groups:
